@@ -646,7 +646,7 @@ def cmd_setup():
         log(out[-4000:])
         return 1
     for which in ("seq", "conc"):
-        if os.path.isdir(os.path.join(VERIF, "harness", which)) and os.path.exists(os.path.join(VERIF, "harness", which, "Cargo.toml")):
+        if os.path.exists(os.path.join(VERIF, "harness", which, "Cargo.toml")) and (which == "seq" or os.path.exists(os.path.join(VERIF, "harness", which, "READY"))):
             ok, out = build_impl(which)
             if not ok:
                 log(out[-4000:])
